@@ -23,13 +23,15 @@
 (*                              EXTERNAL although the peer uid is unknown   *)
 (*   "abort_unsupported_mech"   AUTH <unknown mechanism> aborts the         *)
 (*                              handshake instead of REJECTED               *)
-(*   "abort_unknown_command"    an unknown / unreadable command aborts the  *)
-(*                              handshake instead of ERROR                  *)
+(*   "abort_unparsable_command" a line the command parser cannot read (an   *)
+(*                              unknown command word, non-ASCII bytes, a    *)
+(*                              malformed hex argument) aborts the          *)
+(*                              handshake instead of ERROR / REJECTED       *)
 (*   "panic_lf_start"           a line feed at the start of a line panics   *)
 (***************************************************************************)
 EXTENDS Sasl, TLC
 
-Devs == {"empty_identity_no_creds", "abort_unsupported_mech", "abort_unknown_command", "panic_lf_start"}
+Devs == {"empty_identity_no_creds", "abort_unsupported_mech", "abort_unparsable_command", "panic_lf_start"}
 
 R(reply, st) == [reply |-> reply, st |-> st]
 
@@ -45,7 +47,7 @@ Refusals(st) == {R("REJECTED", "WaitAuth"), R("ERROR", st), R("none", "Failed")}
 
 \* commands handled the same way in every state
 Common(cfg, st, cmd, devs) ==
-  CASE cmd.k = "UNKNOWN" -> {R("ERROR", st)} \cup (IF "abort_unknown_command" \in devs THEN {R("none", "Failed")} ELSE {})
+  CASE cmd.k = "UNKNOWN" -> {R("ERROR", st)}
     [] cmd.k = "BADEND"  -> {R("none", "Failed"), R("ERROR", st)}
     [] cmd.k = "LFSTART" -> {R("none", "Failed"), R("ERROR", st)} \cup (IF "panic_lf_start" \in devs THEN {R("none", "Panic")} ELSE {})
     [] cmd.k = "NONUL"   -> {R("none", "Failed")}
@@ -53,7 +55,9 @@ Common(cfg, st, cmd, devs) ==
 AuthResult(cfg, id) ==   \* outcome of presenting identity class `id` in the configured mechanism
   (IF MayAccept(cfg, id) THEN {R("OK", "WaitBegin")} ELSE {}) \cup (IF MayRefuse(cfg, id) THEN Refusals("WaitAuth") ELSE {})
 
-Allowed(cfg, st, cmd, devs) ==
+Unparsable(cmd) == cmd.k = "UNKNOWN" \/ (cmd.k \in {"AUTH", "DATA"} /\ cmd.id = "badhex")
+
+AllowedRef(cfg, st, cmd, devs) ==
   IF cmd.k \in {"UNKNOWN", "BADEND", "LFSTART", "NONUL"} THEN Common(cfg, st, cmd, devs)
   ELSE CASE st = "WaitAuth" ->
          CASE cmd.k = "AUTH" ->
@@ -87,6 +91,11 @@ Allowed(cfg, st, cmd, devs) ==
            [] cmd.k = "AUTH" /\ cmd.mech = "OTHER" /\ "abort_unsupported_mech" \in devs -> {R("ERROR", "WaitBegin"), R("none", "Failed")}
            [] OTHER -> {R("ERROR", "WaitBegin")}                     \* AUTH, DATA: misplaced
        [] OTHER -> {}
+
+Allowed(cfg, st, cmd, devs) ==
+  AllowedRef(cfg, st, cmd, devs)
+    \cup (IF "abort_unparsable_command" \in devs /\ Unparsable(cmd) /\ st \in {"WaitAuth", "WaitData", "WaitBegin"}
+            THEN {R("none", "Failed")} ELSE {})
 
 (* Which clause of the property pins the reaction to cmd in st (if any): *)
 Clause(cfg, st, cmd) ==
